@@ -235,6 +235,7 @@ type Run struct {
 	QHits     int
 	QErrs     int
 	BkQueries int
+	Reopened  int
 }
 
 func names(all am.S, idx []int) am.S {
